@@ -20,21 +20,31 @@ def indexStr (s : Bytes) (i : Int) : JV :=
   let i := clampIndex i (-1) rs.length
   if 0 ≤ i ∧ i < rs.length then .str (Utf8.encodeRune (rs.getD i.toNat 0)) else .null
 
-/-- the `start`/`end` computation shared by `slice`, `sliceString`, `updateArraySlice`:
-    `start = clampIndex(toInt(s), 0, len)` (0 for null), `end = clampIndex(toIntCeil(e), start, len)`
-    (len for null); a non-number is the error `mkErr` -/
-def sliceBounds (len : Nat) (e s : JV) (mkErr : JV → Err) : Except Err (Nat × Nat) := do
-  let start ← match s with
-    | .null => pure 0
-    | s => match toInt? s with
-      | some i => pure (clampIndex i 0 len)
-      | none => throw (mkErr s)
-  let end_ ← match e with
-    | .null => pure (len : Int)
-    | e => match toIntCeil? e with
-      | some i => pure (clampIndex i start len)
-      | none => throw (mkErr e)
-  pure (start.toNat, end_.toNat)
+/-- `start = clampIndex(toInt(s), 0, len)`, 0 for null; a non-number is the error `mkErr` -/
+def sliceStart (len : Nat) (s : JV) (mkErr : JV → Err) : Except Err Int :=
+  match s with
+  | .null => .ok 0
+  | s => match toInt? s with
+    | some i => .ok (clampIndex i 0 len)
+    | none => .error (mkErr s)
+
+/-- `end = clampIndex(toIntCeil(e), start, len)`, len for null -/
+def sliceEnd (len : Nat) (start : Int) (e : JV) (mkErr : JV → Err) : Except Err Int :=
+  match e with
+  | .null => .ok (len : Int)
+  | e => match toIntCeil? e with
+    | some i => .ok (clampIndex i start len)
+    | none => .error (mkErr e)
+
+/-- the `start`/`end` computation shared by `slice`, `sliceString`, `updateArraySlice`
+    (the start is examined first, as in the Go code) -/
+def sliceBounds (len : Nat) (e s : JV) (mkErr : JV → Err) : Except Err (Nat × Nat) :=
+  match sliceStart len s mkErr with
+  | .error err => .error err
+  | .ok start =>
+    match sliceEnd len start e mkErr with
+    | .error err => .error err
+    | .ok end_ => .ok (start.toNat, end_.toNat)
 
 /-- `for i := range s { if k--; k < 0 { return i } }`: byte offset of the `k`-th decoded rune -/
 def runeOffsetAux : Nat → Bytes → Nat → Nat → Nat
